@@ -165,7 +165,8 @@ def case_s(draw) -> dict[str, Any]:
             "cancel": draw(st.one_of(st.none(), st.tuples(st.integers(0, n - 1), st.sampled_from([0.0005, 0.02, 0.06, 0.15, 0.33, 0.51, 0.8, 1.05, 1.21, 1.5])).map(list))),
             "reconnect_at": draw(st.one_of(st.none(), st.sampled_from([0.02, 0.3, 0.75, 1.1]))),
             # somebody stops the tester-present worker (as wait_for_ecu() does), pings, and starts it again - whatever the others are doing
-            "stop_worker_at": draw(st.one_of(st.none(), st.none(), st.sampled_from([0.03, 0.12, 0.3, 0.55, 0.75, 1.1])))}
+            "stop_worker_at": draw(st.one_of(st.none(), st.none(), st.sampled_from([0.03, 0.12, 0.3, 0.55, 0.75, 1.1]))),
+            "stop_how": draw(st.sampled_from(["stop+ping", "wait_for_ecu"]))}
 
 
 def run_case(case: dict[str, Any]) -> dict[str, Any]:
@@ -245,9 +246,14 @@ def run_case(case: dict[str, Any]) -> dict[str, Any]:
         async def stopper(at: float) -> None:
             await asyncio.sleep(at)
             try:
-                await ecu.stop_cyclic_tester_present()
-                state["stopped"] = True
-                await ecu.ping()
+                if case.get("stop_how") == "wait_for_ecu":
+                    # the library's own way of doing this: wait_for_ecu() stops the worker and pings until the ECU answers
+                    state["stopped"] = True
+                    await ecu.wait_for_ecu(timeout=3.0)
+                else:
+                    await ecu.stop_cyclic_tester_present()
+                    state["stopped"] = True
+                    await ecu.ping()
             except Exception as e:  # noqa: BLE001
                 results["stopper"] = ("exc", type(e).__name__)
             finally:
@@ -270,6 +276,11 @@ def run_case(case: dict[str, Any]) -> dict[str, Any]:
         for t in pending:
             t.cancel()
         w = state.get("worker")
+        if w is not None and not w.done():
+            # everybody is done: the worker goes on pinging at its interval, whatever the requests before it ended with
+            n0 = sum(1 for e in trace if e[0] == "write" and e[3][:1] == b"\x3e")
+            await asyncio.sleep(3 * case["tp_interval"] + 2 * TIMEOUT + 0.5)
+            state["idle_pings"] = sum(1 for e in trace if e[0] == "write" and e[3][:1] == b"\x3e") - n0
         if w is not None:
             state["worker_dead"] = w.done()
             if w.done() and not w.cancelled():
@@ -381,6 +392,8 @@ def check(case: dict[str, Any]) -> list[tuple[str, str]]:
     for name in names:
         if name not in r["results"] and name not in (r["state"].get("unfinished") or []):
             out.append(("C05/caller-vanished", f"{name} has no result"))
+    if r["state"].get("idle_pings") == 0 and not r["state"].get("worker_dead"):
+        out.append(("C05/worker-silent", f"tester-present worker alive but no TesterPresent within 3 intervals + 2 timeouts after everybody else had finished; results={r['results']}"))
     if r["state"].get("worker_dead"):
         out.append(("C05/worker-died", f"tester-present worker ended: {r['state'].get('worker_exc')}"))
     return out
